@@ -7,10 +7,11 @@ this module consumes exactly that JSON (after ``json.loads``):
               {"b": bool}               boolean
   expression  {"k": tag, ...}           tags / fields as in Expr.tla: num(v) bool(val) var(name) const(name)
               neg abs not (a) | add sub mul div pow floordiv mod (a, b) | min max and or (args) |
-              cmp(ops, args) | ite(c, a, b) | call(name, args) | fn(name, args)
+              cmp(ops, args) | ite(c, a, b) | call(name, args[, kw]) | fn(name, args)
+              (kw[j] = "" positional / parameter name: keyword argument; absent = all positional)
   statement   {"k": "assign", "name", "e"} | {"k": "ret", "e"} | {"k": "if", "e", "body", "orelse"} |
               {"k": "chain", "names", "e"} | {"k": "aug", "name", "op", "e"} | {"k": "while", "e", "body"} | {"k": "for", "name", "e", "body"}
-  function    {"k": "fn", "params": [...], "body": [...]}
+  function    {"k": "fn", "params": [...], "body": [...][, "defs": [values of the last parameters' defaults]]}
 
 Rendering (spec -> Python source):
   expr_src(e, style)                 one expression, fully parenthesised
@@ -122,7 +123,9 @@ def expr_src(e: dict, style: Style = PLAIN) -> str:
     if k == "ite":
         return f"({r(e['a'])} if {r(e['c'])} else {r(e['b'])})"
     if k == "call":
-        return f"{style.call_prefix}{e['name']}({', '.join(r(x) for x in e['args'])})"
+        kw = e.get("kw") or [""] * len(e["args"])      # "" = positional, otherwise the parameter name
+        parts = [(n + "=" if n else "") + _strip(r(x)) for n, x in zip(kw, e["args"], strict=True)]
+        return f"{style.call_prefix}{e['name']}({', '.join(parts)})"
     if k == "fn":
         return f"math.{e['name']}({', '.join(r(x) for x in e['args'])})"
     raise ValueError(f"unknown expression tag {k!r}")
@@ -179,11 +182,17 @@ def body_lines(body: list, style: Style = PLAIN, indent: int = 1, elif_ok: bool 
     return out
 
 
-def fn_src(name: str, params: list[str], body: list, style: Style = PLAIN) -> str:
+def fn_src(name: str, params: list[str], body: list, style: Style = PLAIN, defs: list | None = None) -> str:
+    """``defs``: JSON values, the defaults of the last len(defs) parameters (``def f(a, b=3.0)``)."""
+    defs = defs or []
+    first = len(params) - len(defs)
+    ps = [p + (": float" if style.annotate else "")
+          + ((" = " if style.annotate else "=") + repr(float(from_json_value(defs[j - first]))) if j >= first else "")
+          for j, p in enumerate(params)]
     if style.annotate:
-        head = f"def {name}({', '.join(p + ': float' for p in params)}) -> float:"
+        head = f"def {name}({', '.join(ps)}) -> float:"
     else:
-        head = f"def {name}({', '.join(params)}):"
+        head = f"def {name}({', '.join(ps)}):"
     return "\n".join([head, *(body_lines(body, style) or ["    pass"])]) + "\n"
 
 
@@ -201,7 +210,7 @@ def module_src(fns: dict, consts: dict | None = None, style: Style = PLAIN, impo
     lines.append("")
     for name, f in fns.items():
         lines.append("")
-        lines.append(fn_src(name, list(f["params"]), f["body"], (styles or {}).get(name, style)))
+        lines.append(fn_src(name, list(f["params"]), f["body"], (styles or {}).get(name, style), f.get("defs")))
     return "\n".join(lines)
 
 
